@@ -288,7 +288,17 @@ pub fn c06(tier: Tier) -> Result<Report, String> {
         assumptions: ASSUME_A.iter().map(|s| s.to_string()).collect(),
         explanation: "Binary-churn scenarios (heap binaries created, shared in tuples/closures, sliced, sent, skipped/taken by filters, captured and passed at spawn, dropped in tail loops, awaited twice, left in mailboxes) under every schedule within the deviation bound, down to one instruction per time slice (quantum 1 puts a reclamation point between every two instructions). After EVERY worker action, on that worker's executor: check_refcounts() (count > 0 <=> reachable, using the repository's own root set), no reachable slot is freed, free list == freed flags without duplicates, freed slots have count 0; at quiescence after one flushing slice: no unreachable slot lingers outside the free list; result bytes equal host-computed bytes. Debug assertions of the repository (use-after-free, release underflow, refcount check at process completion) are live in the verif profile and count as I-noerr.".to_string(),
     };
-    driver::run_plan(plan)
+    let mut rep = driver::run_plan(plan)?;
+    // REPL part: line histories (local compaction, orphan release, alias shadowing)
+    let budget = crate::infra::Budget::new(if thorough { 600.0 } else { 25.0 });
+    let (cov, violations) = super::replheap::run(
+        if thorough { 5 } else { 4 },
+        if thorough { &[1, 2, 3] } else { &[1, 2] },
+        &budget,
+    )?;
+    rep.coverage["repl_histories"] = cov;
+    rep.violations.extend(violations);
+    Ok(rep)
 }
 
 struct SelectMon {
